@@ -391,10 +391,12 @@ def ZTXt.encodeBody (z : ZCodec) (c : ZTXt) : Except TextEncErr Bytes :=
       | .error e => .error e
       | .ok raw => .ok (data ++ 0 :: 0 :: z.compress raw)
 
-/-- `ITXtChunk::encode` (text_metadata.rs:524-599).  Order of the refusals: keyword (Latin-1, size,
+/-- `ITXtChunk::encode` (text_metadata.rs:524-602).  Order of the refusals: keyword (Latin-1, size,
 NUL), language tag (`!is_ascii() || contains('\0')`, :551), translated keyword (`contains('\0')`,
 :560), then the text.  With `compressed = false` and a text that is still in the `Compressed` state
-the payload is inflated (without a bound, :588) and written *as is*, without a UTF-8 check. -/
+the payload is inflated (without a bound, :588) and written only if it is valid UTF-8 (:591-592,
+the repair of the defect found by property C17): `CompressionError` when it does not inflate,
+`Unrepresentable` when what it inflates to is no text. -/
 def ITXt.encodeBody (z : ZCodec) (c : ITXt) : Except TextEncErr Bytes :=
   match encodeKeyword c.keyword with
   | .error e => .error e
@@ -412,7 +414,8 @@ def ITXt.encodeBody (z : ZCodec) (c : ITXt) : Except TextEncErr Bytes :=
       | .compressed v =>
         match z.decompress v with
         | none => .error .compressionError
-        | some raw => .ok (head ++ raw)
+        | some raw =>
+          if (utf8Decode raw).isSome then .ok (head ++ raw) else .error .unrepresentable
       | .uncompressed s => .ok (head ++ utf8Encode s)
 
 /-! ## A toy codec
